@@ -25,10 +25,18 @@ def format_model(data_format):
     if rng is not None:
         text = getattr(rng, "description", None)
         allowed = R.parse_int_range(text) if text else None
+    def public(name, default):
+        # only public properties are read; formats without separators (excel, ods) do not have them
+        try:
+            value = getattr(data_format, name)
+        except Exception:
+            return default
+        return default if value is None else value
+
     return {
         "kind": kind,
-        "dec": getattr(data_format, "_decimal_separator", "."),
-        "ths": getattr(data_format, "_thousands_separator", ""),
+        "dec": public("decimal_separator", "."),
+        "ths": public("thousands_separator", ""),
         "allowed": allowed,
     }
 
